@@ -345,6 +345,7 @@ class Node:
             self.rnd.knobs = knobs
             self.rnd.apart = (0.3 if self.name == 'A' else 1.7) if knobs.get('pushback_apart') else None
         self.ctr = 0
+        self.kernel.portids = set()          # a new process: no netlink socket of the previous one is left
         self.state = 'running'
         self.death = None
         self.exited = False
